@@ -87,7 +87,9 @@ func runC09(c *Ctx) {
 		g := pb.pathCond(k.enable.Blocks[0], vi.Block())
 		c.checkTable("verify-sites", relName(k.enable)+"#fastpath-guard", vi.Pos(), g,
 			[]string{"Params.DelayInitialVerification", "isnil(monCtl)", "isVerified"}, nil, "Delay && monCtl==nil && isVerified",
-			func(e env) bool { return e.B["Params.DelayInitialVerification"] && e.B["isnil(monCtl)"] && e.B["isVerified"] })
+			func(e env) bool {
+				return e.B["Params.DelayInitialVerification"] && e.B["isnil(monCtl)"] && e.B["isVerified"]
+			})
 	} else {
 		c.bad("verify-sites", relName(k.enable)+"#fastpath-guard", k.enable.Pos(), "EnableVerification has %d Verify invokes, want 1 (the no-monitor fast path)", len(vis))
 	}
